@@ -71,6 +71,11 @@ Section Mnemonic.
     rewrite val_msb_rev, digits_lsb_val by apply nwords_ge2. reflexivity.
   Qed.
 
+  Theorem mnemonic_encode_injective i j : mnemonic_encode words i = mnemonic_encode words j -> i = j.
+  Proof.
+    intro E. pose proof (mnemonic_roundtrip i) as Hi. rewrite E, mnemonic_roundtrip in Hi. congruence.
+  Qed.
+
   (* the number of words is the number of base-n digits; 0 is the empty phrase *)
   Theorem mnemonic_encode_zero : mnemonic_encode words 0 = [].
   Proof. reflexivity. Qed.
